@@ -1,6 +1,6 @@
 --------------------------- MODULE MC_NeutralFault ---------------------------
 (* C09 on the model: every valid file of the picked instances (IOEnv.PICKS), every fault of the fault layer.   *)
-(* One transition = one faulty file; it is classified by the intended reader (MustFail / MaySucceed(o')) and by *)
+(* One transition = one faulty file (emitted by the state constraint Emit); it is classified by the intended reader (MustFail / MaySucceed(o')) and by *)
 (* the transcription of the real reader (predicted outcome and memory-unsafe events), the first divergence      *)
 (* between the two is reported, and the file is emitted for the run against the real loaders.                   *)
 EXTENDS NeutralFile, Json, IOUtils, SequencesExt
@@ -24,16 +24,19 @@ FaultCase(k, b, j, ft) ==
 
 \* The classification is evaluated in a state constraint (one evaluation per faulty file; LET definitions are
 \* cached there, which they are not inside an action).
+\* The classification is evaluated in a state constraint: one evaluation per faulty file.
 Init == n \in 1..Len(Picks) /\ f = 0
 Next == /\ f = 0
         /\ n' = n
         /\ LET b == Base(n) IN
            IF ~ValidBase(b) THEN f' = -1
-           ELSE f' \in ({-2} \cup (1..Len(FaultList(b.L, b.c))))
+           ELSE f' \in ({-2} \cup (1..NFaults(b.L)))
 Emit == \/ f = 0
         \/ LET b == Base(n) IN
            CASE f = -1 -> PrintT(ToJson([base |-> n, c |-> b.c, kind |-> "invalid-base"]))
-             [] f = -2 -> PrintT(ToJson([base |-> n, c |-> b.c, kind |-> "base", lines |-> b.L, o |-> b.o, nfaults |-> Len(FaultList(b.L, b.c))]))
-             [] OTHER  -> PrintT(ToJson(FaultCase(n, b, f, FaultList(b.L, b.c)[f])))
+             [] f = -2 -> PrintT(ToJson([base |-> n, c |-> b.c, kind |-> "base", lines |-> b.L, o |-> b.o, nfaults |-> NFaults(b.L)]))
+             [] OTHER  -> LET ft == FaultAt(b.L, b.c, f) IN
+                          IF ft.kind = "noop" THEN PrintT(ToJson([base |-> n, j |-> f, c |-> b.c, kind |-> "noop"]))
+                          ELSE PrintT(ToJson(FaultCase(n, b, f, ft)))
 Spec == Init /\ [][Next]_vars
 =============================================================================
